@@ -3,7 +3,7 @@ reservations, strictness producers, varint tables."""
 import re
 
 from mirlib import AnchorMissing, op_place, path_matches, is_bare, place_projs, const_int
-from helpers import (vexpr, try_edges, ok_dominates, must_pass, branches_on_call, bool_branches, enum_switches, edge_region,
+from helpers import (store_overlay, vexpr, try_edges, ok_dominates, must_pass, branches_on_call, bool_branches, enum_switches, edge_region,
                      aggregates, field_accesses, arm, origin_calls)
 
 SI = "slice_codec::buffer::slice::SliceInputSource<'_> as slice_codec::buffer::InputSource>::"
@@ -321,6 +321,63 @@ def r_read_advances_by_checked_count(r, prog):
     r.floor(6)
 
 
+def _split_top(s, sep=','):
+    out, depth, cur = [], 0, ''
+    for ch in s:
+        if ch in '({[':
+            depth += 1
+        elif ch in ')}]':
+            depth -= 1
+        if ch == sep and depth == 0:
+            out.append(cur)
+            cur = ''
+        else:
+            cur += ch
+    out.append(cur)
+    return out
+
+
+def simplify_arith(e):
+    """Canonical form of an integer value expression: Add arguments sorted, Sub(Add(a,b),b) = a, Add(Sub(a,b),b) = a (the comparison is of
+    values, so the way the source spells the arithmetic does not matter)."""
+    e = e.strip()
+    m = re.match(r'^(\w+)\((.*)\)$', e)
+    if not m or len(_split_top(m.group(2))) != 2 or m.group(1) not in ('Add', 'Sub'):
+        return e
+    a, b = [simplify_arith(x) for x in _split_top(m.group(2))]
+    if m.group(1) == 'Sub':
+        ma = re.match(r'^Add\((.*)\)$', a)
+        if ma:
+            x, y = _split_top(ma.group(1))
+            if y == b:
+                return x
+            if x == b:
+                return y
+        return 'Sub(%s,%s)' % (a, b)
+    for u, v in ((a, b), (b, a)):
+        mu = re.match(r'^Sub\((.*)\)$', u)
+        if mu:
+            x, y = _split_top(mu.group(1))
+            if y == v:
+                return x
+    return ADD(a, b)
+
+
+def range_bounds(e):
+    m = re.match(r'^Range::Range\{start:(.*),end:(.*)\}$', e)
+    if not m:
+        return None
+    # the split between start and end is the top-level ',end:'
+    body = e[len('Range::Range{'):-1]
+    parts = _split_top(body)
+    d = {}
+    for part in parts:
+        k, _, v = part.partition(':')
+        d[k] = simplify_arith(v[:-2] if v.endswith('.0') and v.startswith('Sub(') else v)
+    return d.get('start'), d.get('end')
+
+
+
 # --------------------------------------------------------------------------- C12: reservations
 def r_reservations(r, prog):
     RES = 'slice_codec::buffer::Reservation'
@@ -333,21 +390,26 @@ def r_reservations(r, prog):
         if f.path not in allowed:
             r.finding('reservation-forged:%s' % f.path, a['span'], 'a Reservation is constructed in %s; only reserve_space may create one' % f.path)
             continue
-        got = vexpr(f, a['rv']['ops'][0])
+        # the position field may be advanced before the range is built: reads after that store see the stored value
+        stores = []
+        for bb, j, lhs, rv, st in f.assigns():
+            if lhs['l'] == 1 and [x.get('n') for x in place_projs(lhs) if isinstance(x, dict) and 'f' in x] == ['pos'] and rv['k'] == 'use':
+                stores.append(('arg1.pos', bb, j, vexpr(f, rv['a'])))
+        j_agg = max([j for bb, j, st in f.stmts() if bb == a['bb'] and st.get('rv') is a['rv']] or [None], key=lambda x: -1 if x is None else x)
+        store_overlay(f, stores)
+        try:
+            got = vexpr(f, a['rv']['ops'][0], at=(a['bb'], j_agg))
+        finally:
+            store_overlay(f, [])
         r.ok('Reservation created in %s' % f.path.split('::')[-1], got)
-        # it must cover exactly [old position, old position + count)
-        want_end = ADD('arg2', 'len(arg1.buffer)') if 'Vec' in f.path else None
-        if 'Vec' in f.path:
-            if got != _subst(allowed[f.path], ''):
-                r.finding('reservation-range:%s' % f.path, a['span'], 'reserve_space returns the range %s, expected %s' % (got, _subst(allowed[f.path], '')))
-            else:
-                r.ok('growable reservation = len..len+count')
+        # it must cover exactly [old position, old position + count): compared as values (Sub(Add(p,n),n) = p), so it does not matter whether the
+        # source computes the start before the advance or subtracts after it
+        old_pos = 'len(arg1.buffer)' if 'Vec' in f.path else 'arg1.pos'
+        b = range_bounds(got)
+        if b and b[0] == old_pos and b[1] == ADD(old_pos, 'arg2'):
+            r.ok('%s reservation = position before the call .. that position + count' % ('growable' if 'Vec' in f.path else 'fixed-slice'))
         else:
-            # slice: pos was advanced first; range is (pos-count)..pos evaluated after the advance
-            if re.search(r'start:Sub\(.*arg2\)', got) and 'end:' in got:
-                r.ok('fixed-slice reservation = (pos-count)..pos after the advance')
-            else:
-                r.finding('reservation-range:%s' % f.path, a['span'], 'reserve_space returns the range %s, expected (pos - count)..pos' % got)
+            r.finding('reservation-range:%s' % f.path, a['span'], 'reserve_space returns the range %s (bounds %s), expected %s..%s' % (got, b, old_pos, ADD(old_pos, 'arg2')))
     if n < 2:
         raise AnchorMissing('two constructions of Reservation')
     # the range is only narrowed from the front, by exactly the bytes copied, after the copy
@@ -555,6 +617,17 @@ def varint_encoder_table(f, signed):
     return rows, cmps
 
 
+
+def range_error_builders(prog):
+    """Names of the slice-codec functions whose body builds InvalidDataErrorKind::OutOfRange (the range-error helpers), found by what they
+    construct, not by what they are called."""
+    from helpers import aggregates
+    names = set()
+    for a in aggregates(prog, 'slice_codec::error::InvalidDataErrorKind', 'OutOfRange', crates=('slice_codec',)):
+        names.add(re.sub(r'::\{closure#\d+\}', '', a['fn'].path).rsplit('::', 1)[-1])
+    return names
+
+
 def r_varint_encoder(r, prog):
     for nm, signed in (('encode_varint', True), ('encode_varuint', False)):
         f = prog.fn('slice_codec::encoding::<impl slice_codec::encoder::Encoder<O>>::' + nm)
@@ -586,8 +659,9 @@ def r_varint_encoder(r, prog):
             else:
                 r.ok('%s %d-byte arm: bits <= %d, as %s, code %d, value << 2' % (nm, 1 << k, exp_hi, exp_ty, exp_tag))
         # the open arm refuses: reachable only above 62 bits and builds an error, never encodes
-        errs = [c for c in f.calls() if c.name() in ('varint_range_error', 'varuint_range_error')]
-        if errs and not any(e.bb in f.reachable(x['bb']) for x in rows for e in errs if False):
+        errs = [c for c in f.calls() if c.name() in range_error_builders(prog)] or \
+            [a for a in aggregates(prog, 'slice_codec::error::InvalidDataErrorKind', 'OutOfRange', crates=('slice_codec',)) if a['fn'] is f]
+        if errs:
             top = rows[-1]['hi']
             if top == 62:
                 r.ok('%s: values needing more than 62 bits are refused with a range error' % nm)
@@ -632,9 +706,9 @@ def r_varint_decoder(r, prog):
             r.finding('varint-decoder-shift:%s' % nm, f.span, '%s does not shift the decoded value right by exactly 2' % nm)
         # the only value-dependent rejection is the failed conversion into the requested type: every range error sits on the
         # failure edge of T::try_from(value), and the result is that conversion (a value that fits is never refused, whatever width carried it)
-        errs = [c for c in f.calls() if c.name() in ('varint_range_error', 'varuint_range_error') and not f.blocks[c.bb].get('cleanup')]
+        errs = [c for c in f.calls() if c.name() in range_error_builders(prog) and not f.blocks[c.bb].get('cleanup')]
         cls = [g for g in prog.fns.values() if g.path.startswith(f.path + '::{closure')]
-        errs_in_closure = [c for g in cls for c in g.calls() if c.name() in ('varint_range_error', 'varuint_range_error')]
+        errs_in_closure = [c for g in cls for c in g.calls() if c.name() in range_error_builders(prog)]
         tf = [c for c in f.calls() if c.name() == 'try_from' and not f.blocks[c.bb].get('cleanup')]
         me = [c for c in f.calls() if c.name() == 'map_err' and not f.blocks[c.bb].get('cleanup')]
         ret = vexpr(f, {'cp': {'l': 0}}, depth=6)
